@@ -474,10 +474,6 @@ func (t *opTr) resultTerm(is *ast.IfStmt, replyVar, replyType string, structs ma
 	if r, ok := is.Body.List[0].(*ast.ReturnStmt); !ok || len(r.Results) == 0 || src(r.Results[len(r.Results)-1]) != "err" {
 		return ""
 	}
-	els, ok := is.Else.(*ast.BlockStmt)
-	if !ok || len(els.List) == 0 {
-		return ""
-	}
 	index := map[string]int{}
 	ftype := map[string]string{}
 	for i, fld := range structs[replyType] {
@@ -485,9 +481,22 @@ func (t *opTr) resultTerm(is *ast.IfStmt, replyVar, replyType string, structs ma
 		index[name] = i
 		ftype[name] = typ
 	}
+	prefix := ""
+	els, ok := is.Else.(*ast.BlockStmt)
+	if e2, isIf := is.Else.(*ast.IfStmt); isIf {
+		// … else if uint32(reply.SerialNumber) != controller { return …, ErrIncorrectController } else { … }
+		i, has := index["SerialNumber"]
+		if e2.Init != nil || !has || src(e2.Cond) != "uint32("+replyVar+".SerialNumber) != "+t.params[0] || !returnsError(e2.Body) {
+			return ""
+		}
+		prefix = fmt.Sprintf("if (r.getD %d .none_ != dev a) then .err else ", i)
+		els, ok = e2.Else.(*ast.BlockStmt)
+	}
+	if !ok || els == nil || len(els.List) == 0 {
+		return ""
+	}
 	// before the final return: `if c { return nil, nil }` (no such record), `if c { return nil, <error> }`, boolean locals,
 	// and `x := types.T{…}` returned as `&x`; conditions compare a reply field with a literal or with an argument
-	prefix := ""
 	locals := map[string]string{}
 	var lits = map[string]*ast.CompositeLit{}
 	var sentinelCond func(e ast.Expr) string
@@ -498,10 +507,10 @@ func (t *opTr) resultTerm(is *ast.IfStmt, replyVar, replyType string, structs ma
 		case *ast.Ident:
 			return locals[x.Name]
 		case *ast.BinaryExpr:
-			if x.Op == token.LOR {
+			if x.Op == token.LOR || x.Op == token.LAND {
 				a, b := sentinelCond(x.X), sentinelCond(x.Y)
 				if a != "" && b != "" {
-					return "(" + a + " || " + b + ")"
+					return "(" + a + map[token.Token]string{token.LOR: " || ", token.LAND: " && "}[x.Op] + b + ")"
 				}
 				return ""
 			}
@@ -526,6 +535,8 @@ func (t *opTr) resultTerm(is *ast.IfStmt, replyVar, replyType string, structs ma
 				}
 			} else if l, rest, ok := t.leaf(x.Y); ok && rest == "" && l.idx > 0 && (l.kind == "u32" && ftype[sel.Sel.Name] == "uint32") {
 				rhs = "val? " + argTerm(l)
+			} else if ok && rest == "" && l.idx > 0 && l.kind == "u8" && ftype[sel.Sel.Name] == "uint8" {
+				rhs = ".u8 (u8? " + argTerm(l) + ")"
 			}
 			if rhs == "" {
 				return ""
@@ -535,11 +546,31 @@ func (t *opTr) resultTerm(is *ast.IfStmt, replyVar, replyType string, structs ma
 		}
 		return ""
 	}
+	sliceLen := map[string]int{}      // x := []types.T{types.T{}, …}: a local slice of n zero values
+	sliceType := map[string]string{}
+	elemField := map[string]string{}  // "x[i].F" → the term assigned to it
 	for _, st := range els.List[:len(els.List)-1] {
 		switch x := st.(type) {
 		case *ast.IfStmt:
 			if x.Init != nil || x.Else != nil || len(x.Body.List) != 1 {
 				return ""
+			}
+			// if reply.P != nil { x[i].F = *reply.P }: the field, or its zero value when the pointer is nil
+			if as, isAs := x.Body.List[0].(*ast.AssignStmt); isAs {
+				be, isBin := x.Cond.(*ast.BinaryExpr)
+				if !isBin || be.Op != token.NEQ || src(be.Y) != "nil" || as.Tok != token.ASSIGN || len(as.Lhs) != 1 || len(as.Rhs) != 1 || src(as.Rhs[0]) != "*"+src(be.X) {
+					return ""
+				}
+				sel, isSel := be.X.(*ast.SelectorExpr)
+				if !isSel || src(sel.X) != replyVar || ftype[sel.Sel.Name] != "*types.HHmm" {
+					return ""
+				}
+				lhs := src(as.Lhs[0])
+				if _, dup := elemField[lhs]; dup {
+					return ""
+				}
+				elemField[lhs] = fmt.Sprintf("hmOfPtr (r.getD %d .none_)", index[sel.Sel.Name])
+				continue
 			}
 			r, ok := x.Body.List[0].(*ast.ReturnStmt)
 			if !ok || len(r.Results) != 2 || src(r.Results[0]) != "nil" {
@@ -560,6 +591,14 @@ func (t *opTr) resultTerm(is *ast.IfStmt, replyVar, replyType string, structs ma
 			}
 			if cl, ok := x.Rhs[0].(*ast.CompositeLit); ok && strings.HasPrefix(src(cl.Type), "types.") {
 				lits[src(x.Lhs[0])] = cl
+			} else if ok && src(cl.Type) == "[]types.Segment" {
+				for _, el := range cl.Elts {
+					if src(el) != "types.Segment{}" {
+						return ""
+					}
+				}
+				sliceLen[src(x.Lhs[0])] = len(cl.Elts)
+				sliceType[src(x.Lhs[0])] = "Segment"
 			} else if c := sentinelCond(x.Rhs[0]); c != "" {
 				locals[src(x.Lhs[0])] = c
 			} else {
@@ -618,14 +657,30 @@ func (t *opTr) resultTerm(is *ast.IfStmt, replyVar, replyType string, structs ma
 					return ""
 				}
 				// a map literal with the keys 1, 2, 3 … in order: its values, in order
-				if ml, ok := kv.Value.(*ast.CompositeLit); ok && strings.HasPrefix(src(ml.Type), "map[") {
+				if ml, ok := kv.Value.(*ast.CompositeLit); ok && (strings.HasPrefix(src(ml.Type), "map[") || src(ml.Type) == "types.Weekdays" || src(ml.Type) == "types.Segments") {
+					days := []string{"time.Monday", "time.Tuesday", "time.Wednesday", "time.Thursday", "time.Friday", "time.Saturday", "time.Sunday"}
 					for k, mel := range ml.Elts {
 						mkv, ok := mel.(*ast.KeyValueExpr)
 						if !ok {
 							return ""
 						}
-						if key, ok := intLit(mkv.Key); !ok || int(key) != k+1 {
+						if key, ok := intLit(mkv.Key); !(ok && int(key) == k+1) && !(src(ml.Type) == "types.Weekdays" && k < 7 && len(ml.Elts) == 7 && src(mkv.Key) == days[k]) {
 							return ""
+						}
+						// x[i] of a local slice of Segments: its Start and End
+						if ix, isIx := mkv.Value.(*ast.IndexExpr); isIx && sliceType[src(ix.X)] == "Segment" {
+							i, ok := intLit(ix.Index)
+							if !ok || int(i) >= sliceLen[src(ix.X)] {
+								return ""
+							}
+							for _, fld := range []string{"Start", "End"} {
+								if tm, has := elemField[fmt.Sprintf("%s[%d].%s", src(ix.X), i, fld)]; has {
+									vals = append(vals, tm)
+								} else {
+									vals = append(vals, "(.hhmm ⟨0, 0⟩)")
+								}
+							}
+							continue
 						}
 						v := val(mkv.Value)
 						if v == "" {
@@ -644,9 +699,6 @@ func (t *opTr) resultTerm(is *ast.IfStmt, replyVar, replyType string, structs ma
 			return prefix + ".vals [" + strings.Join(vals, ", ") + "]"
 		}
 	}
-	if prefix != "" {
-		return ""
-	}
 	for _, e := range results {
 		v := val(e)
 		if v == "" {
@@ -654,7 +706,7 @@ func (t *opTr) resultTerm(is *ast.IfStmt, replyVar, replyType string, structs ma
 		}
 		vals = append(vals, v)
 	}
-	return ".vals [" + strings.Join(vals, ", ") + "]"
+	return prefix + ".vals [" + strings.Join(vals, ", ") + "]"
 }
 
 // operation: (request type, reply type, guard term, build term); t.result is set for the simplest reply shapes
